@@ -84,6 +84,20 @@ class FindIdentifiers(_ast_util.NodeVisitor):
 
     def visit_ClassDef(self, node):
         self._add_declared(node.name)
+        # decorators, bases and keywords are evaluated in the enclosing
+        # scope; names assigned in the class body are local to it
+        for n in node.decorator_list + node.bases:
+            self.visit(n)
+        for keyword in node.keywords:
+            self.visit(keyword.value)
+        inf = self.in_function
+        self.in_function = True
+        local_ident_stack = self.local_ident_stack
+        self.local_ident_stack = local_ident_stack.union(())
+        for n in node.body:
+            self.visit(n)
+        self.in_function = inf
+        self.local_ident_stack = local_ident_stack
 
     def visit_Assign(self, node):
         # flip around the visiting of Assign so the expression gets
